@@ -59,6 +59,10 @@ def install(R: Registry):
              "a module handle is the table entry of its socket, or its socket is no longer in the table")
     R.define("mm_subs_same", "mm: MessageManager, m: Module, t: Int",
              "mm.subscriptions[t][m] == old(mm.subscriptions[t][m])")
+    # the manager's reaction to a subscription control frame as a function on its view of the sender's set;
+    # the client-side agreement proof (C02) uses the same two functions
+    R.define("add_step", "S: Set[Int], t: Int", f"ite(t == {ALL}, setadd(empty('Int'), {ALL}), ite(S[{ALL}], S, setadd(S, t)))")
+    R.define("remove_step", "S: Set[Int], t: Int", f"ite(t == {ALL}, empty('Int'), ite(S[{ALL}], S, setdel(S, t)))")
     R.define("sub_type_of", "msg: Message", "cast(msg.data, MDF_SUBSCRIBE).msg_type",
              "the int32 at offset 0 of the payload: msg_type of SUBSCRIBE/UNSUBSCRIBE/PAUSE/RESUME")
 
@@ -184,6 +188,7 @@ def install(R: Registry):
                ensures=[
                    "wf(self)", "names_ok(self) and validation_off()", "stays_if_closed(self)", ("C18", "counter_sync(self)"),
                    "table_shrinks(self)", "departed(self)", "older_gids_untouched()", "counts_monotone(self)",
+                   ("C02", "src_module.subs == remove_step(old(src_module.subs), sub_type_of(msg))", "UNSUBSCRIBE / PAUSE: exactly the step function the client-side proof assumes"),
                    f"implies(sub_type_of(msg) == {ALL}, src_module.subs == empty('Int'))",
                    f"implies(sub_type_of(msg) != {ALL} and old(src_module.subs)[{ALL}], src_module.subs == old(src_module.subs))",
                    f"implies(sub_type_of(msg) != {ALL} and not old(src_module.subs)[{ALL}], src_module.subs == setdel(old(src_module.subs), sub_type_of(msg)))",
@@ -200,6 +205,7 @@ def install(R: Registry):
                ensures=[
                    "wf(self)", "names_ok(self) and validation_off()", "stays_if_closed(self)", ("C18", "counter_sync(self)"),
                    "table_shrinks(self)", "departed(self)", "older_gids_untouched()", "counts_monotone(self)",
+                   ("C02", "src_module.subs == add_step(old(src_module.subs), sub_type_of(msg))", "SUBSCRIBE / RESUME: exactly the step function the client-side proof assumes"),
                    f"implies(sub_type_of(msg) == {ALL}, src_module.subs == setadd(empty('Int'), {ALL}))",
                    f"implies(sub_type_of(msg) != {ALL} and old(src_module.subs)[{ALL}], src_module.subs == old(src_module.subs))",
                    f"implies(sub_type_of(msg) != {ALL} and not old(src_module.subs)[{ALL}], src_module.subs == setadd(old(src_module.subs), sub_type_of(msg)))",
